@@ -403,7 +403,7 @@ func init() {
 		{Name: "scheme", Vals: []string{"sip", "sips"}},
 		{Name: "user", Vals: []string{"none", "u", "u:pw", "%41u", "u;x", "u?x"}},
 		{Name: "host", Vals: []string{"name", "ipv4", "ipv6", "dash-name"}},
-		{Name: "port", Vals: []string{"none", "5060", "5070"}},
+		{Name: "port", Vals: []string{"none", "5060", "5070", "05070", "65535"}},
 		{Name: "p1", Vals: par}, {Name: "p2", Vals: par}, {Name: "p3", Vals: par, Quick: 4}, {Name: "p4", Vals: par[:5], Quick: 1},
 		{Name: "h1", Vals: []string{"absent", "a=b", "c=%20d", "e="}}, {Name: "h2", Vals: []string{"absent", "a=b", "c=%20d", "e="}, Quick: 2},
 	}, Eval: c14EvalURI, Sample: 20000, Seqs: [][]string{{"p1", "p2", "p3", "p4"}, {"h1", "h2"}}}
@@ -415,7 +415,7 @@ func init() {
 	c14Specs["via"] = &EnumSpec{Feats: []Feat{
 		{Name: "proto", Vals: []string{"SIP/2.0/UDP", "SIP/2.0/TCP", "SIP/2.0/TLS", "SIP/2.0/udp", "X/9/SCTP"}},
 		{Name: "host", Vals: []string{"ipv4", "name", "ipv6"}},
-		{Name: "port", Vals: []string{"none", "5060", "5070"}},
+		{Name: "port", Vals: []string{"none", "5060", "5070", "05070", "65535"}},
 		{Name: "p1", Vals: vpar}, {Name: "p2", Vals: vpar}, {Name: "p3", Vals: vpar, Quick: 4}, {Name: "p4", Vals: vpar[:5], Quick: 1},
 		{Name: "more", Vals: []string{"none", "plain", "params", "four"}},
 		{Name: "sep", Vals: []string{"comma", "comma-blank"}},
